@@ -504,7 +504,8 @@ def e_gama_local(ctx, bdir):
     bad = 0
     opts_pool = [[], ["--algorithm", "envelope"], ["--algorithm", "svd"], ["--algorithm", "cholesky"], ["--algorithm", "gso"], ["--angular", "360"], ["--angular", "400"],
                  ["--latitude", "50"], ["--ellipsoid", "wgs84"], ["--cov-band", "0"], ["--cov-band", "-1"], ["--iterations", "0"], ["--iterations", "3"],
-                 ["--language", "cz"], ["--encoding", "iso-8859-2"], ["--export", "EXP"], ["--updated-xml", "UPD"], ["--svg", "SVG"], ["--octave", "OCT"]]
+                 ["--language", "cz"], ["--language", "fr"], ["--encoding", "iso-8859-2"], ["--encoding", "cp-1250"], ["--export", "EXP"], ["--html", "HTM"], ["--svg", "SVG"],
+                 ["--octave", "OCT"], ["--verbose", "no"], ["--latitude", "-91"], ["--ellipsoid", "nonsense"], ["--angular", "123"], ["--cov-band", "abc"]]
     for t in range(n):
         src = rng.choice(files)
         data = open(src, "rb").read()
@@ -514,12 +515,35 @@ def e_gama_local(ctx, bdir):
         open(inp, "wb").write(data)
         opts = []
         for o in rng.sample(opts_pool, rng.choice([0, 1, 2])):
-            opts += [os.path.join(ctx.scratch, "c11_%d.%s" % (t, x.lower())) if x in ("EXP", "UPD", "SVG", "OCT") else x for x in o]
+            opts += [os.path.join(ctx.scratch, "c11_%d.%s" % (t, x.lower())) if x in ("EXP", "HTM", "SVG", "OCT") else x for x in o]
         cmd = [exe, inp, "--text", os.path.join(ctx.scratch, "c11_%d.txt" % t), "--xml", os.path.join(ctx.scratch, "c11_%d.xml" % t)] + opts
         rc, out, err = run_tool(cmd)
         ctx.count(("gama-local", data[:4000], tuple(opts)), nontrivial=True)
         ctx.hist("gama_local_exit", rc)
         why = classify(rc, out, err, "gama-local")
+        # with --xml a refusal is reported inside the XML (exit status 0): well-formed, and a parser error carries its line
+        xp = os.path.join(ctx.scratch, "c11_%d.xml" % t)
+        if why is None and os.path.exists(xp) and os.path.getsize(xp) > 0:
+            try:
+                import xml.etree.ElementTree as ET
+                root = ET.parse(xp).getroot()
+                er = root.find("{http://www.gnu.org/software/gama/gama-local-adjustment}error")
+                if er is not None:
+                    cat = er.get("category")
+                    ctx.hist("xml_error_category", cat)
+                    ln = er.find("{http://www.gnu.org/software/gama/gama-local-adjustment}lineNumber")
+                    descr = [d.text or "" for d in er.findall("{http://www.gnu.org/software/gama/gama-local-adjustment}description")]
+                    if cat == "gamaLocalParserError" and (ln is None or int(ln.text or 0) < 1 or not any(x.strip() for x in descr[1:])):
+                        why = "gama-local refuses the input without a located diagnostic (XML error document: line %s, text %r)" % (
+                            ln.text if ln is not None else None, descr[1:])
+                else:
+                    ctx.hist("xml_error_category", "adjusted")
+            except ET.ParseError as e:
+                why = "the XML written for this input is not well-formed: %s" % e
+        elif why is None and rc == 0 and "--help" in out and "--version" in out:
+            ctx.hist("xml_error_category", "usage printed (bad option value)")
+        elif why is None and rc == 0:
+            why = "gama-local wrote no XML although --xml was given and the exit status is 0"
         if why is None and rc != 0:
             # refused: the diagnostic names a line, unless it is not about the input text at all
             txt = out + err
